@@ -315,7 +315,7 @@ pub mod props {
             esc_byte(meta, ap, c, at_start).len() > 0,
             body_meta(meta) && at_start ==> !ctl(esc_byte(meta, ap, c, at_start)[0]), // #text_byte_at_line_start_is_guarded
             body_meta(meta) ==> forall|p: int| 0 <= p < esc_byte(meta, ap, c, at_start).len() - 1 ==> esc_byte(meta, ap, c, at_start)[p] != 10, // #newline_only_as_the_last_byte_written
-            body_meta(meta) && esc_byte(meta, ap, c, at_start).last() == 10 ==> esc_flag(meta, ap, c), // #line_start_flag_set_after_every_newline_written
+            (esc_byte(meta, ap, c, at_start).last() == 10) == esc_flag(meta, ap, c), // #line_start_flag_set_exactly_after_a_newline_written
             meta == Escape::Spaces ==> forall|p: int| 0 <= p < esc_byte(meta, ap, c, at_start).len() ==> esc_byte(meta, ap, c, at_start)[p] != 10, // #request_argument_stays_on_its_line
             meta == Escape::Spaces && (c == 32 || c == 92) ==> esc_byte(meta, ap, c, at_start) == seq![92u8, c], // #space_and_backslash_in_request_arguments_escaped
             body_meta(meta) && (c == 92 || c == 45) ==> esc_byte(meta, ap, c, at_start) == seq![92u8, c], // #backslash_and_dash_in_text_escaped
@@ -342,7 +342,7 @@ pub mod props {
             let (o, f) = esc_frag(meta, ap, bs, n, a);
             &&& (forall|p: int| 1 <= p < o.len() && o[p - 1] == 10 ==> !ctl(#[trigger] o[p])) // #no_request_character_after_a_newline
             &&& (a && o.len() > 0 ==> !ctl(o[0])) // #nor_at_the_start_when_the_fragment_starts_a_line
-            &&& (if o.len() == 0 { f == a } else { o.last() == 10 ==> f }) // #flag_over_approximates_line_starts
+            &&& (if o.len() == 0 { f == a } else { f == (o.last() == 10) }) // #flag_tracks_line_starts_exactly
         }),
         decreases n,
     {
